@@ -654,6 +654,17 @@ def run(rep):
                 rep.violation("named:" + lines[k], "%s answers %s, the positional call answers %s" % (what, got, want),
                               {"op": lines[k].replace("cmp all ", "cmp named ", 1), "impl": n_out, "positional": io[k]})
                 break
+    # operands bound to variables and fully evaluated before the comparison: same nine answers
+    idx = [k for k, mt in enumerate(meta) if mt[0] == "pool" and pure(mt[-2]) and pure(mt[-1])]
+    rng.shuffle(idx)
+    idx = idx[: (400 if quick else 8000)]
+    fio = vlib.impl([lines[k].replace("cmp all ", "cmp forced ", 1) for k in idx])
+    for k, f_out in zip(idx, fio):
+        rep.bump("forced-operand comparisons")
+        if f_out != io[k]:
+            rep.violation("forced:" + lines[k], "comparison of operands that were evaluated beforehand answers %s, of fresh operands %s"
+                          % (f_out[:120], io[k][:120]),
+                          {"op": lines[k].replace("cmp all ", "cmp forced ", 1), "impl": f_out, "fresh": io[k]})
     for pi, vals in enumerate(pools + dpools):
         n = len(vals)
         if any(pres[pi].get((i, j)) is None for i in range(n) for j in range(n)):
@@ -688,6 +699,11 @@ def replay(r):
                 rc = 1
         return rc
     rp = r["replay"]
+    if (rp.get("op") or "").startswith("cmp forced "):
+        f = vlib.impl([rp["op"]])[0]
+        a = vlib.impl([rp["op"].replace("cmp forced ", "cmp all ", 1)])[0]
+        print(rp["op"]); print("  forced:", f); print("  fresh :", a)
+        return 0 if f == a else 1
     if (rp.get("op") or "").startswith("cmp named "):
         named = vlib.impl([rp["op"]])[0]
         pos = vlib.impl([rp["op"].replace("cmp named ", "cmp all ", 1)])[0]
